@@ -173,6 +173,16 @@ func (e *Env) entropyCorpus(label string, emit func(EntCase)) {
 			for _, ent := range e.extremeEntropies(lang, size, label) {
 				emit(EntCase{ent, lang, "longest-or-shortest-words"})
 			}
+			// 2b'. sentences in which words repeat (two or three distinct words only)
+			rr := rng.New(e.Seed, label+"-repeat-"+itoa(lang)+"-"+itoa(size))
+			for k := 0; k < 24; k++ {
+				pool := []int{rr.Intn(2048), rr.Intn(2048), rr.Intn(2048)}[:2+k%2]
+				first := make([]int, size*3/4-1)
+				for i := range first {
+					first[i] = pool[rr.Intn(len(pool))]
+				}
+				emit(EntCase{entropyFromIndices(size, first, rr.Intn(1<<uint(11-size/4))), lang, "repeated-words"})
+			}
 			// 2c. byte-value sweeps and runs of ones in the middle (carries, limb boundaries)
 			br := rng.New(e.Seed, label+"-bytes-"+itoa(lang)+"-"+itoa(size))
 			for p := 0; p < size; p++ {
